@@ -143,6 +143,20 @@ def step (st : Unit) (line : String) : Unit × String :=
       let leak := r.2.1.native.any (fun x => x == 999999 || x ≥ leakBase)
       (st, s!"{status} gas={used} markers={showNats ms} kept={showNats kept} logs={r.2.1.logs.length} ref={if leak then "diff" else "same"}")
     | _, _, _ => (st, "bad-op")
+  | "direct" :: gl :: intr :: toks =>
+    -- the transaction's `to` is the precompile: one precompile node, no caller frame
+    match gl.toNat?, intr.toNat?, parseList toks with
+    | some gl, some intr, some ([.pre hd req sh out inner act], markers, []) =>
+      if gl < intr then (st, "rejected") else
+      let v0 : View NS := { slots := fun _ => 0, native := [], logs := [] }
+      let r := runTxPre (toks.length + 10) (gl - intr) hd.xfer req sh out inner act v0
+      let status := match r.1 with | .ok => "ok" | .revert => "revert" | .fail => "fail" | .abort => "abort"
+      let ms := markers.filter (fun k => r.2.1.slots k != 0)
+      let kept := r.2.1.native.filter (· < 100000)
+      let used := (gl - intr) - r.2.2
+      let leak := r.2.1.native.any (fun x => x == 999999 || x ≥ leakBase)
+      (st, s!"{status} gas={used} markers={showNats ms} kept={showNats kept} logs={r.2.1.logs.length} ref={if leak then "diff" else "same"}")
+    | _, _, _ => (st, "bad-op")
   | _ => (st, "bad-op")
 
 def main : IO Unit := runDriver step ()
